@@ -93,8 +93,8 @@ Theorem C14_fee_monotone : forall s t,
   rule_fee RZip317 s <= rule_fee RZip317 t.
 Proof. exact zip317_fee_mono. Qed.
 
-(** The builder only panics in the two documented classes (Sapling balance outside the valid
-    range hits an [expect]; pre-Overwinter transactions cannot be signed). *)
+(** The builder only panics in the one documented class: a pre-Overwinter transaction cannot be
+    signed (explicit panic in sighash_v4). *)
 Theorem C14_panic_only_documented : forall r, build r = Panic -> panic_class r = true.
 Proof. exact build_panic. Qed.
 
@@ -107,24 +107,24 @@ Proof. exact bridge. Qed.
     equality of signature-hash terms). sig_index: the scriptSig of input i consists of signatures
     over the signature hash for (i, value_i, script_i, SIGHASH_ALL) and satisfies the spent coin's
     script, multisig signatures passing OP_CHECKMULTISIG's ordered matching. *)
-Theorem C14_sig_index : forall (T : Type) (sh_eqb : sighash T -> sighash T -> bool),
+Theorem C14_sig_index : forall (T : Type) (v5 : bool) (sh_eqb : sighash T -> sighash T -> bool),
   (forall a b, sh_eqb a b = true <-> a = b) ->
-  forall keys tx cs l, apply_signatures T keys tx cs = Some l ->
+  forall keys tx cs l, apply_signatures T v5 keys tx cs = Some l ->
     length l = length cs /\
     forall i c, nth_error cs i = Some c ->
       exists ss, nth_error l i = Some ss /\
-                 sigs_over T ss (msg_for T tx i c) /\ input_valid T sh_eqb tx i c ss = true.
+                 sigs_over T ss (msg_for T v5 tx i c) /\ input_valid T v5 sh_eqb tx i c ss = true.
 Proof. exact sig_index. Qed.
 (** A signature made over another input's index, or over another value, is rejected. *)
-Theorem C14_wrong_index_rejected : forall (T : Type) (sh_eqb : sighash T -> sighash T -> bool),
+Theorem C14_wrong_index_rejected : forall (T : Type) (v5 : bool) (sh_eqb : sighash T -> sighash T -> bool),
   (forall a b, sh_eqb a b = true <-> a = b) ->
   forall tx i j c k, i <> j ->
-    verifyb T sh_eqb (Sig T k (msg_for T tx j c)) k (msg_for T tx i c) = false.
+    verifyb T sh_eqb (Sig T k (msg_for T v5 tx j c)) k (msg_for T v5 tx i c) = false.
 Proof. exact wrong_index_rejected. Qed.
-Theorem C14_wrong_value_rejected : forall (T : Type) (sh_eqb : sighash T -> sighash T -> bool),
+Theorem C14_wrong_value_rejected : forall (T : Type) (v5 : bool) (sh_eqb : sighash T -> sighash T -> bool),
   (forall a b, sh_eqb a b = true <-> a = b) ->
   forall tx i c c' k, c_spend c = c_spend c' -> c_value c <> c_value c' ->
-    verifyb T sh_eqb (Sig T k (msg_for T tx i c')) k (msg_for T tx i c) = false.
+    verifyb T sh_eqb (Sig T k (msg_for T v5 tx i c')) k (msg_for T v5 tx i c) = false.
 Proof. exact wrong_value_rejected. Qed.
 (** Multisig signatures must follow the redeem script's key order, not the registration order. *)
 Theorem C14_multisig_order_matters : forall (T : Type) (sh_eqb : sighash T -> sighash T -> bool),
@@ -133,9 +133,17 @@ Theorem C14_multisig_order_matters : forall (T : Type) (sh_eqb : sighash T -> si
     checkmultisig T sh_eqb [k1; k2] [Sig T k2 msg; Sig T k1 msg] msg = false.
 Proof. exact multisig_order_matters. Qed.
 (** A multisig input can be signed exactly when the builder model accepts it. *)
-Theorem C14_sign_p2sh_iff : forall (T : Type) keys (tx : T) i v m n,
-  sign_input T keys tx i (mkCoin v (SpP2sh m n)) <> None <-> p2sh_signable keys (m, n) = true.
+Theorem C14_sign_p2sh_iff : forall (T : Type) (v5 : bool) keys (tx : T) i v m n,
+  sign_input T v5 keys tx i (mkCoin v (SpP2sh m n)) <> None <-> p2sh_signable keys (m, n) = true.
 Proof. exact sign_p2sh_iff. Qed.
+(** The selectors the model's signing step produces (the ones run_case compares with what the
+    harness observed every real signature to verify for) satisfy the signature clause: own input
+    index, the spent coin's value and script code, its scriptPubKey from v5 on, SIGHASH_ALL, the
+    coin's key - for multisig m keys of the redeem script in script order. *)
+Theorem C14_signed_selectors : forall keys v ops,
+  forallb (p2sh_signable keys) (tsh_mn ops) = true ->
+  sels_okb_from (is_v5 v) 0 (coins_of ops) (model_sels keys v ops) = true.
+Proof. exact model_sels_ok. Qed.
 
 (** C07 x C14: the change strategy's fee is the builder's fee. For a proposal
     [C07.compute_balance x c = Ok b] and the builder request carrying the same inputs, payments and
@@ -192,8 +200,9 @@ Proof. vm_compute. reflexivity. Qed.
 Example ex_required_bundle : build (mkReq Main 3428143 false false true (mkPad false None) (mkPad true None) []
         [Propose V5; TIn 1998] (RLin [0; 0; 0; 0; 0; 0; 999]) Pczt) = Err (EAdd 0 (ETarget V5 None)).
 Proof. vm_compute. reflexivity. Qed.
-Example ex_panic_class : panic_class (mkReq Main 3000000 true false false (mkPad false None) (mkPad false None) []
-        [SSpend 2100000000000001] RZip317 Mock) = true.
+(** a Sapling balance outside the monetary range is refused (it used to hit an [expect]) *)
+Example ex_sapling_overflow : build (mkReq Main 3000000 true false false (mkPad false None) (mkPad false None) []
+        [SSpend 2100000000000001] RZip317 Mock) = Err (EBalance true).
 Proof. vm_compute. reflexivity. Qed.
 
 Example ex_deferred : exists b, build (mkReq Main 3428150 false false false (mkPad false None) (mkPad false (Some 1)) []
